@@ -36,7 +36,7 @@ var props = map[string]propSpec{
 	"C01": {"C01", []string{"genmap", "genselect", "gensep", "rnd-gen"}, "", nil},
 	"C02": {"C02", []string{"genmap", "rnd-gen", "empty", "rnd-empty"}, "", nil},
 	"C03": {"C03", []string{"empty", "rnd-empty"}, "", nil},
-	"C04": {"C04", []string{"empty", "rnd-empty"}, "", nil},
+	"C04": {"C04", []string{"empty", "boundary", "rnd-empty"}, "", nil},
 	"C05": {"C05", []string{"reset", "rnd-reset"}, "", nil},
 	"C06": {"C06", []string{"badfrom", "badto", "rnd-badfrom", "rnd-badto"}, "", nil},
 	"C07": {"C07", []string{"empty", "reset", "rnd-empty", "rnd-reset"}, "", nil},
